@@ -21,12 +21,16 @@ TINY = 5e-324
 
 
 class IV:
-    __slots__ = ('lo', 'hi', 'nan')
+    __slots__ = ('lo', 'hi', 'nan', 'tight')
 
-    def __init__(self, lo, hi=None, nan=0):
+    def __init__(self, lo, hi=None, nan=0, tight=False):
         if hi is None:
             hi = lo
         self.lo, self.hi, self.nan = float(lo), float(hi), nan
+        self.tight = tight  # an input box: every value of the interval is a legitimate input of its own
+
+    def as_input(self):
+        return IV(self.lo, self.hi, self.nan, True)
 
     @property
     def exact(self):
@@ -138,11 +142,31 @@ def div(a, b):
     definite = a.exact and b.exact and ((a.lo == 0 and b.lo == 0) or (math.isinf(a.lo) and math.isinf(b.lo)))
     if definite or a.nan == 2 or b.nan == 2:
         return NAN
-    r = mul(IV(a.lo, a.hi, 0), recip(IV(b.lo, b.hi, 0)))
     n = 1 if (a.nan or b.nan or zz or ii) else 0
-    if r.nan == 2:
-        return IV(-INF, INF, 1)
-    return IV(r.lo, r.hi, max(n, 0 if (a.exact and b.exact) else (1 if r.nan and (zz or ii) else 0)))
+    if b.lo < 0 < b.hi:
+        return IV(-INF, INF, n)
+
+    def q(x, y, ysign):
+        if y == 0:
+            if x == 0:
+                return 0.0  # limit value; the NaN possibility is carried by the flag
+            return INF if (x > 0) == (ysign > 0) else -INF
+        if math.isinf(x) and math.isinf(y):
+            return 1.0 if (x > 0) == (y > 0) else -1.0  # any finite limit is possible: widened below
+        if math.isinf(y):
+            return 0.0
+        try:
+            return x / y
+        except OverflowError:
+            return INF if (x > 0) == (y > 0) else -INF
+    if b.lo == b.hi:
+        signs = [math.copysign(1.0, b.lo)]  # an exact zero keeps the sign the float operations gave it
+    else:
+        signs = [1, -1] if (b.lo == 0 or b.hi == 0) else [1]  # a zero endpoint of a range may be +0 or -0
+    vals = [q(x, y, sg) for sg in signs for x in (a.lo, a.hi) for y in (b.lo, b.hi)]
+    if ii:
+        vals += [0.0, INF if (a.hi > 0) == (b.hi > 0) else -INF]
+    return hull(vals, n)
 
 
 def _pow1(x, y):
@@ -176,7 +200,7 @@ def power(a, b):
     if a.nan == 2 or b.nan == 2:
         return NAN
     n = 1 if (a.nan or b.nan) else 0
-    if b.exact and b.lo == int(b.lo) and abs(b.lo) < 64:
+    if b.exact and abs(b.lo) < 64 and b.lo == int(b.lo):
         k = int(b.lo)
         if k == 0:
             return IV(1, 1, n)
@@ -186,13 +210,27 @@ def power(a, b):
                 vals.append(0.0)
             return hull(vals, n)
         return div(IV(1, 1, 0), power(a, IV(-k, -k, 0))) if n == 0 else IV(-INF, INF, 1)
-    if a.hi < 0:
-        return NAN if (a.exact and b.exact) else IV(-INF, INF, 1)
+    special = math.isinf(a.lo) or math.isinf(b.lo) or math.isinf(b.hi)
+    if a.hi < 0 and not special:
+        if a.exact and b.exact and b.lo != math.floor(b.lo):
+            return NAN  # finite negative base, finite non-integral exponent
     lo = max(a.lo, 0.0)
+    if a.hi >= 0:
+        pos = hull([_pow1(lo, b.lo), _pow1(lo, b.hi), _pow1(a.hi, b.lo), _pow1(a.hi, b.hi)]
+                   + ([1.0] if (lo <= 1 <= a.hi or b.contains(0)) else []), n)
+    else:
+        pos = None
     if a.lo < 0:
-        n = 1
-    return hull([_pow1(lo, b.lo), _pow1(lo, b.hi), _pow1(a.hi, b.lo), _pow1(a.hi, b.hi)]
-                + ([1.0] if (lo <= 1 <= a.hi or b.contains(0)) else []), n)
+        # a negative base is NaN for a fractional exponent and +-|x|**k for an integral one (every double >= 2**53 is
+        # integral); pow(-inf, y) and pow(x, +-inf) are 0, 1 or inf
+        top = -a.lo
+        m = power(IV(0.0, top), IV(b.lo, b.hi))
+        vals = [-m.hi, m.hi] + ([pos.lo, pos.hi] if pos is not None else [])
+        if special:
+            vals += [0.0, 1.0, INF]
+        lo_, hi_ = min(vals), max(vals)
+        return IV(lo_, hi_, 1)
+    return pos
 
 
 def _pow_int(x, k):
@@ -298,10 +336,12 @@ class IntervalKind(AbsInt):
     """Evaluates a family's closed form for one abstract input case."""
     MAX_DEPTH = 4
 
-    def __init__(self, ctx, theta, cols):
+    def __init__(self, ctx, theta, cols, domrec=None, recording=False):
         super().__init__(ctx)
         self.theta = theta
         self.cols = cols  # (IV of the first column, IV of the second column)
+        self.domrec = {} if recording else domrec
+        self.recording = recording
 
     # ---------------------------------------------------------------- domain
     def const(self, node, fr):
@@ -361,7 +401,7 @@ class IntervalKind(AbsInt):
         if isinstance(node.op, ast.UAdd):
             return v
         if isinstance(node.op, ast.Not) and isinstance(v, tuple) and v and v[0] == 'bool':
-            return ('bool', None if v[1] is None else not v[1])
+            return ('bool', {True: False, False: True, 'sureTrue': 'sureFalse', 'sureFalse': 'sureTrue'}.get(v[1], v[1]))
         return TOP
 
     def compare(self, node, fr):
@@ -369,18 +409,29 @@ class IntervalKind(AbsInt):
             return ('bool', None)
         a, b = self.value(node.left, fr), self.value(node.comparators[0], fr)
         if isinstance(a, IV) and isinstance(b, IV):
-            return ('bool', compare(type(node.ops[0]).__name__, a, b))
+            r = compare(type(node.ops[0]).__name__, a, b)
+            if r is None and not (a.nan or b.nan) and ((a.tight and b.exact) or (b.tight and a.exact)):
+                r = 'both'  # an input box straddling a constant: rows of either kind exist
+            return ('bool', r)
         return ('bool', None)
+
+    def ifexp(self, e, fr):
+        c = self.value(e.test, fr)
+        if isinstance(c, tuple) and c and c[0] == 'bool' and c[1] in (True, False):
+            return self.value(e.body if c[1] else e.orelse, fr)
+        return self.join(self.value(e.body, fr), self.value(e.orelse, fr))
 
     def boolop(self, node, vals, fr):
         bs = [v[1] if isinstance(v, tuple) and v and v[0] == 'bool' else None for v in vals]
-        if isinstance(node.op, ast.Or):
-            if any(b is True for b in bs):
-                return ('bool', True)
-            return ('bool', False) if all(b is False for b in bs) else ('bool', None)
-        if any(b is False for b in bs):
-            return ('bool', False)
-        return ('bool', True) if all(b is True for b in bs) else ('bool', None)
+        dom, unit = (True, False) if isinstance(node.op, ast.Or) else (False, True)
+        if any(b is dom for b in bs):
+            return ('bool', dom)
+        if all(b is unit for b in bs):
+            return ('bool', unit)
+        rest = [b for b in bs if b is not unit]
+        if len(rest) == 1:
+            return ('bool', rest[0])
+        return ('bool', None)
 
     def subscript(self, node, base, fr):
         if isinstance(base, Tup):
@@ -446,7 +497,7 @@ class IntervalKind(AbsInt):
         if name == 'numpy.where' and len(a) == 3:
             c = self.value(a[0], fr)
             x, y = self.value(a[1], fr), self.value(a[2], fr)
-            if isinstance(c, tuple) and c and c[0] == 'bool' and c[1] is not None:
+            if isinstance(c, tuple) and c and c[0] == 'bool' and c[1] in (True, False):
                 return x if c[1] else y
             return self.join(x, y)
         if name in ('numpy.isnan',):
@@ -464,10 +515,34 @@ class IntervalKind(AbsInt):
 
     def method_call(self, meth, node, recv, fr):
         if meth in ('all', 'any') and isinstance(recv, tuple) and recv and recv[0] == 'bool':
-            return recv
+            return ('bool', self.reduce_rows(meth, node, recv[1]))
         if meth in ('copy', 'astype', 'ravel', 'flatten', 'item', 'squeeze') and isinstance(recv, IV):
             return recv
         return None
+
+    def reduce_rows(self, meth, node, r):
+        """Truth value of a reduction over the batch, for a batch that contains the abstract row.
+
+        The other rows of the batch are arbitrary rows of the clause's domain: `self.domrec` holds, per reduction call,
+        the truth value of the reduced test for the whole domain (first pass).  Values: True / False (for every such
+        batch), 'both' (batches of either kind certainly exist), 'sureTrue' / 'sureFalse' (that outcome certainly
+        exists - the batch of this single row - the other may or may not), None (unknown)."""
+        if self.recording:
+            old = self.domrec.get(id(node), 'unset')
+            self.domrec[id(node)] = r if old in ('unset', r) else None
+            return None
+        d = self.domrec.get(id(node)) if self.domrec is not None else None
+        if r == 'both':
+            return 'both'
+        if r not in (True, False):
+            return None
+        if meth == 'all':
+            if r is False:
+                return False
+            return True if d is True else ('both' if d in (False, 'both') else 'sureTrue')
+        if r is True:
+            return True
+        return False if d is False else ('both' if d in (True, 'both') else 'sureFalse')
 
     def project_call_override(self, g, node, fr):
         if g.qualname == 'copulas.bivariate.utils.split_matrix':
@@ -482,38 +557,82 @@ class IntervalKind(AbsInt):
     # ----------------------------------------------------- path-pruned returns
     def returns(self, fr):
         out = BOT
+        for val, _ in self.return_alts(fr):
+            out = self.join(out, val)
+        return out
+
+    def return_alts(self, fr):
+        """[(value, definite)] per return path that is not excluded; definite: the path is taken by some concrete batch."""
         fn = fr.fn
+        alts = []
         for path in enum_paths(fn.body()):
             if not isinstance(path.end, ast.Return):
                 continue
             sub = Frame(fn, dict(fr.params), fr.concrete, fr.depth, path=path)
-            feasible = True
+            feasible, definite, n_both = True, True, 0
             for test, pol in path.conds:
                 if not isinstance(test, ast.expr):
+                    definite = False
                     continue
                 v = self.value(test, sub)
-                if isinstance(v, tuple) and v and v[0] == 'bool' and v[1] is not None and v[1] != pol:
-                    feasible = False
-                    break
+                b = v[1] if isinstance(v, tuple) and v and v[0] == 'bool' else None
+                if b in (True, False):
+                    if b != pol:
+                        feasible = False
+                        break
+                elif b == 'both' or (b == 'sureTrue' and pol) or (b == 'sureFalse' and not pol):
+                    n_both += 1
+                else:
+                    definite = False
             if not feasible:
                 continue
             val = self.value(path.end.value, sub) if path.end.value is not None else TOP
-            out = self.join(out, val)
-        return out
+            alts.append((val, definite and n_both <= 1))
+        return alts
 
 
-def evaluate(ctx, cls, method, theta, u, v, extra=None):
-    """Abstract result of cls.method for one homogeneous batch case."""
+def evaluate(ctx, cls, method, theta, u, v, extra=None, alts=False, domain=None, domcache=None):
+    """Abstract result of cls.method for one row box (u, v); the other rows of the batch range over `domain`."""
     fn = cls.lookup(method)
-    ik = IntervalKind(ctx, theta, (u, v))
-    params = {}
-    ps = fn.params[1:]
-    if method == 'percent_point':
-        params[ps[0]], params[ps[1]] = u, v
-    else:
-        params[ps[0]] = Tup([u, v], 'mat')
-    fr = Frame(fn, params, cls)
-    return ik.returns(fr)
+
+    def frame(a, b):
+        params = {}
+        ps = fn.params[1:]
+        a, b = a.as_input(), b.as_input()
+        if method == 'percent_point':
+            params[ps[0]], params[ps[1]] = a, b
+        else:
+            params[ps[0]] = Tup([a, b], 'mat')
+        return Frame(fn, params, cls)
+
+    domrec = None
+    if domain is not None:
+        key = (cls.qualname, method, theta, domain)
+        if domcache is not None and key in domcache:
+            domrec = domcache[key]
+        else:
+            rec = IntervalKind(ctx, theta, domain, recording=True)
+            rec.return_alts(frame(*domain))
+            domrec = rec.domrec
+            if domcache is not None:
+                domcache[key] = domrec
+    ik = IntervalKind(ctx, theta, (u, v), domrec=domrec)
+    fr = frame(u, v)
+    if not alts:
+        return ik.returns(fr)
+    ins = [x for p in fr.params.values() for x in (p.elems if isinstance(p, Tup) else [p])]
+    # third component: the result *is* the first / second input (returned unchanged)
+    return [(val, definite, next((n for n, x in zip('uv', ins) if x is val), None)) for val, definite in ik.return_alts(fr)]
+
+
+def _within(r, c):
+    if c == INF:
+        return r.hi == INF
+    if c == -INF:
+        return r.lo == -INF
+    lo = r.lo if r.lo == -INF else r.lo - 1e-9 * abs(r.lo)
+    hi = r.hi if r.hi == INF else r.hi + 1e-9 * abs(r.hi)
+    return lo <= c <= hi
 
 
 def soundness_selftest(n=4000, seed=0):
@@ -551,9 +670,7 @@ def soundness_selftest(n=4000, seed=0):
                 if c != c:
                     if r.nan == 0:
                         bad.append((nm, a, b, x, y, c, r))
-                elif r.nan != 2 and not (r.lo - 1e-9 * abs(r.lo) <= c <= r.hi + 1e-9 * abs(r.hi)):
-                    bad.append((nm, a, b, x, y, c, r))
-                elif r.nan == 2:
+                elif r.nan == 2 or not _within(r, c):
                     bad.append((nm, a, b, x, y, c, r))
             for nm, (f, g) in un.items():
                 r = f(a)
@@ -561,6 +678,6 @@ def soundness_selftest(n=4000, seed=0):
                 if c != c:
                     if r.nan == 0:
                         bad.append((nm, a, None, x, None, c, r))
-                elif r.nan == 2 or not (r.lo - 1e-9 * abs(r.lo) <= c <= r.hi + 1e-9 * abs(r.hi)):
+                elif r.nan == 2 or not _within(r, c):
                     bad.append((nm, a, None, x, None, c, r))
     return bad
